@@ -309,7 +309,7 @@ def passthrough(ctx):
                     ctx.ob('C02.R3', f_i, getattr(s, 'lineno', 0), f"{f_i.qualname}: one transfer per paired well", not looped,
                            fact='call is not inside a loop of the per-well function', nontrivial=False,
                            why='a well receives the quantity several times', key='transfer looped per well')
-    floor(ctx, 'nested transfer calls', n, 5)
+    floor(ctx, 'nested transfer calls', n, 6)
     # the vectorisers call the per-well function exactly once per element
     ap = model.func('Slicer.apply')
     vecs = [c for c in ast.walk(ap.node) if isinstance(c, ast.Call) and unparse(c.func).endswith('vectorize')]
